@@ -298,8 +298,8 @@ def applyNTombs (d : Defects) (rights : Rights) (dst : Replica) (ts : List NTomb
     With #18 repaired (`ingestIgnoresTombstones := false`) an announced id that carries a deletion record is not
     requested; the deletion log is consulted the way a synchronised deletion deletes (`syncDeletionRoomScoped`):
     `WHERE room_id = ? AND id IN (..)` — the records of the synchronised room, which is the room of the announced
-    row — or, in the intended behaviour, the records of that id in any room. (An id without any record passes at once;
-    the first conjunct keeps the gate in the shape `Lemmas/LwwEq.lean` states it in.) -/
+    row — or, in the intended behaviour, the records of that id in any room. (Two steps: an id without any record
+    passes at once; otherwise the records of that id are looked at.) -/
 def wanted (d : Defects) (dst : Replica) (n : Node) : Option (Option Node) :=
   if !d.ingestIgnoresTombstones && dst.ntombs.any (fun t => t.id = n.id) &&
       dst.ntombs.any (fun t => t.id = n.id && (!d.syncDeletionRoomScoped || t.room = n.room)) then none
@@ -501,6 +501,43 @@ def World.write (d : Defects) (w : World) (p : Nat) (op : WOp) : World × Option
       | .new row _ ent _ _, .ok => { w2 with rows := w2.rows ++ [(row, ent)] }
       | _, _ => w2
     (w3, some e.res)
+
+/-! ### one deletion query with several reference-deletion entries (`DeletionQuery::build` loops over its entries) -/
+
+/-- one entry `(row, to, sig, dsig)` of the query -/
+structure UnrefEntry where
+  row : Nat
+  to : Nat
+  sig : Nat
+  dsig : Nat
+deriving Repr, DecidableEq
+
+/-- every entry is looked up in the state the query was built on (`snap`), the entries that name an existing
+    reference are applied one after the other at the one date of the query, each re-dated source row marks its
+    new and its former day; one refused entry refuses the whole query (`validate_deletion` returns on the first
+    reference the caller may not delete, nothing has been written yet) -/
+def opUnrefs (d : Defects) (rights : Rights) (snap cur : Replica) (p now : Nat) (es : List UnrefEntry) : Effect :=
+  let step := fun (acc : Effect × Bool) (e : UnrefEntry) =>
+    let r := opUnref d rights snap acc.1.cur p e.row e.to e.sig e.dsig now
+    ({ cur := r.cur, marks := acc.1.marks ++ r.marks,
+       res := if r.res = .ok then .ok else if acc.1.res = .ok then .ok else if r.res = .okNoRef then .okNoRef
+              else acc.1.res }, acc.2 || r.res = .errAuth)
+  let (eff, refused) := es.foldl step ({ cur, marks := [], res := .okNothing }, false)
+  if refused then { cur, marks := [], res := .errAuth } else eff
+
+def UnrefEntry.wellFormed (w : World) (e : UnrefEntry) : Bool :=
+  w.entOf e.row = some 0 && (w.entOf e.to).isSome
+
+def unrefsWellFormed (w : World) (es : List UnrefEntry) : Bool :=
+  !es.isEmpty && es.length ≤ 4 && es.all (UnrefEntry.wellFormed w) && ((es.map (·.row)).eraseDups.length = es.length)
+
+/-- the query as its own writer batch (it is not issued while a batch of `p` is open); an open batch of another
+    peer is committed first, as for every write -/
+def World.unrefs (d : Defects) (w : World) (p : Nat) (es : List UnrefEntry) : World × Res :=
+  let w1 := w.commit.1
+  let cur := w1.peer p
+  let e := opUnrefs d w1.rights cur cur p w1.now es
+  (w1.setPeer p { e.cur with log := markAll e.marks e.cur.log }, e.res)
 
 def World.inBatch (w : World) (p : Nat) : Bool :=
   match w.batch with
